@@ -31,7 +31,7 @@ pub enum Pos {
     Other,
 }
 
-pub const EDIT_KINDS: [&str; 34] = [
+pub const EDIT_KINDS: [&str; 35] = [
     "mismatch-cond",
     "mismatch-arg",
     "mismatch-operand",
@@ -49,6 +49,12 @@ pub const EDIT_KINDS: [&str; 34] = [
     "match-nonexhaustive",
     "match-arm-after-default",
     "negate-unsigned",
+    // A negated un-suffixed literal whose type is still open when it is negated, is
+    // unified with another un-suffixed literal first, and only then meets the unsigned
+    // type that the context fixes: `(-5 + 3)`, `(-6 * 2)`, `(if true { -4 } else { 2 })`,
+    // `{ let zz_n = -7; let zz_m = zz_n + 1; zz_m }` in place of an expression of an
+    // unsigned integer type at a position whose type the context declares.
+    "negate-literal-unsigned-later",
     "arith-on-bool",
     "order-on-char",
     "rem-on-float",
@@ -996,6 +1002,46 @@ impl Walker<'_> {
                 if self.hit() {
                     let inner = e.clone();
                     *e = Expr::new(inner.ty.clone(), EK::Un(UnOp::Neg, Box::new(inner)));
+                    return;
+                }
+            }
+            (_, "negate-literal-unsigned-later")
+                if matches!(&e.ty, Ty::Int(t) if !t.signed()) && !matches!(pos, Pos::Other | Pos::Cond) =>
+            {
+                let me = self.n;
+                if self.hit() {
+                    let ty = e.ty.clone();
+                    let lit = |v: i128| Expr::new(ty.clone(), EK::Lit(Lit::Int { v, suffix: false, hex: false, under: false }));
+                    let neg = |v: i128| Expr::new(ty.clone(), EK::Un(UnOp::Neg, Box::new(lit(v))));
+                    let bin = |op: BinOp, a: Expr, b: Expr| Expr::new(ty.clone(), EK::Bin(op, Box::new(a), Box::new(b)));
+                    let form = me % 4;
+                    let new = match form {
+                        0 => Expr::new(ty.clone(), EK::Paren(Box::new(bin(BinOp::Add, neg(5), lit(3))))),
+                        1 => Expr::new(ty.clone(), EK::Paren(Box::new(bin(BinOp::Mul, neg(6), lit(2))))),
+                        2 => Expr::new(
+                            ty.clone(),
+                            EK::Paren(Box::new(Expr::new(
+                                ty.clone(),
+                                EK::If(
+                                    Box::new(Expr::boolean(true)),
+                                    Block { stmts: vec![], tail: Some(Box::new(neg(4))) },
+                                    Some(Block { stmts: vec![], tail: Some(Box::new(lit(2))) }),
+                                ),
+                            ))),
+                        ),
+                        _ => Expr::new(
+                            ty.clone(),
+                            EK::Block(Block {
+                                stmts: vec![
+                                    Stmt::Let("zz_n".into(), None, neg(7)),
+                                    Stmt::Let("zz_m".into(), None, bin(BinOp::Add, Expr::var("zz_n", ty.clone()), lit(1))),
+                                ],
+                                tail: Some(Box::new(Expr::var("zz_m", ty.clone()))),
+                            }),
+                        ),
+                    };
+                    self.tags.push(format!("negate-later:{}", ["neg+lit", "neg*lit", "if-neg-else-lit", "let-neg-then-add"][form]));
+                    *e = new;
                     return;
                 }
             }
